@@ -100,8 +100,31 @@ def faults(ctx, rng, kind, data, budget):
             out.append(("printable-bytes", bytes(rng.choice(b"abcdefghij0123456789 :-") for _ in range(ln))))
     rng.shuffle(out)
     out = out[:budget]
+    if kind.startswith("text.tar") or kind.startswith("fixedstruct.tar"):
+        # damaged numeric header fields of the first member, header checksum recomputed so the archive reader accepts the
+        # header: octal limits, non-octal text, and the base-256 form (first byte 0x80 / 0xff) that holds 64-bit and larger values
+        fields = {"mode": (100, 8), "uid": (108, 8), "gid": (116, 8), "size": (124, 12), "mtime": (136, 12), "devmajor": (329, 8)}
+        for fname_, (fo, fl) in fields.items():
+            def b256(v):
+                return b"\x80" + (v % (1 << (8 * (fl - 1)))).to_bytes(fl - 1, "big")
+            vals = [b"7" * (fl - 1) + b"\0", b"0" * (fl - 1) + b"\0", b" " * fl, b"\0" * fl, b"9" * (fl - 1) + b"\0", b"-1".ljust(fl, b"\0"),
+                    b256(2**63 - 1), b256(2**62), b256(2**40),
+                    b"\x80" + b"\xff" * (fl - 1), b"\xff" * fl, b"\xff" + b"\x00" * (fl - 1), b256(253402300800)]
+            for v in vals:
+                for fix_sum in (True, False):
+                    b = bytearray(data)
+                    b[fo:fo + fl] = v
+                    if fix_sum:
+                        b[148:156] = b" " * 8
+                        b[148:156] = ("%06o\0 " % sum(b[:512])).encode()
+                    out.append(("tar-header-field:%s" % fname_, bytes(b)))
+    if kind == "text":
+        # modification times the file system accepts but that lie outside everyday ranges (the year of year-less timestamps
+        # and the summary are derived from it)
+        for mt in (-2**31, -1, 0, 2**31, 2**32 + 5, 2**33, 253402300800, 2**40, 2**55):
+            out.append(("mtime-extreme", data, None, mt))
     if kind.startswith("fixedstruct-fields-only:"):
-        out = []
+        out = [o for o in out if o[0].startswith("tar-")]
     if kind.startswith("fixedstruct:") or kind.startswith("fixedstruct-fields-only:"):
         # damaged numeric fields: every integer field of the second record set to values around table sizes, sign and width
         # limits (ut_type indexes a 12-entry name table, ac_flag is a bit set, time values feed datetime conversion)
@@ -224,11 +247,16 @@ def run(ctx):
                 fl.append(("mismatching-name:%s-as-%s" % (kind.split(":")[0], other_name), data, other_name))
         for f in fl:
             fclass, fdata = f[0], f[1]
-            name = f[2] if len(f) > 2 else fname
+            name = f[2] if len(f) > 2 and f[2] else fname
             dd = os.path.join(d0, "f%06d" % n)
             n += 1
             os.makedirs(dd)
             path = gen.write(os.path.join(dd, name), fdata)
+            if len(f) > 3:
+                try:
+                    os.utime(path, (f[3], f[3]))
+                except (OSError, OverflowError):
+                    ctx.count("mtime values the file system refused")
             k = rng.choice([0, 0, 1, 2, 3])
             cs = rng.sample(comp, k)
             files = [c.arg for c in cs]
